@@ -213,6 +213,32 @@ func countBelow(v any) int {
 var pathConfusions = []string{`/a/\/b`, `/\`, `/\/`, `/a/\*x/b`, `/a/\:x`, `/:`, `/*`, `/a/:/b`, `/a//b`, `/:a:b/c`, `/a/\\/b`, `/a/*`, `/a/:x*`, `/a/\`, `/a/**/b`, `/*x/y`, `//`, ``, `a`,
 	`/a/:x/:x`, `/%zz`, `/a%2Fb/:c`, "/a\u0000b"}
 
+func anys(vs ...string) []any {
+	out := make([]any, len(vs))
+	for i, v := range vs {
+		out[i] = v
+	}
+
+	return out
+}
+
+// keyedConfusions: values for members which have a small language of their own.
+var keyedConfusions = map[string][]any{
+	"path":                  anys(pathConfusions...),
+	"methods":               {[]any{"!TRACE"}, []any{"!TRACE", "!CONNECT"}, []any{"ALL", "!GET"}, []any{"!"}, []any{""}, []any{"ALL", "ALL"}, []any{"!ALL"}, []any{"GET", "!GET"}, []any{}, []any{"get"}, []any{"G T"}},
+	"if":                    anys("", "!!", "Request.Nothing == 1", "1", `"text"`, "true &&", "Subject.Attributes.a.b.c == 1", "type(Error) == nonsense", "Request.Header(5)"),
+	"type":                  anys("", "exact", "glob", "regex", "Glob", "unknown"),
+	"value":                 anys("", "(", "[", "**", "{a,b", "\\", "a{1,99999}", "(?P<x>"),
+	"scheme":                anys("", "ftp", "HTTP", "http ", "https"),
+	"cache_ttl":             anys("", "-1s", "0", "1", "1y", "9999999h", "s"),
+	"validity_leeway":       anys("", "-5s", "x"),
+	"matching_strategy":     anys("", "Exact", "unknown", "wildcard "),
+	"allow_encoded_slashes": anys("", "maybe", "ON", "no-decode"),
+	"host":                  anys("", ":", "a b", "[::1", "upstream:99999"),
+	"strip_path_prefix":     anys("", "gen", "/gen0/", "//"),
+	"expression":            anys("", "1", "!!", "Payload.a.b.c", "true ||"),
+}
+
 var confusions = []any{nil, 5, -1.5, true, "", "a string", []any{}, []any{1, "x"}, []any{map[string]any{"k": "v"}}, map[string]any{}, map[string]any{"unexpected": []any{1}},
 	[]any{nil}, map[string]any{"authenticator": 5}, "{{ bad template", "/**/x", 1e30,
 	// path expressions around the escape and wildcard characters
@@ -263,20 +289,22 @@ func mutateDoc(t *rapid.T, doc map[string]any) (string, int) {
 
 		nd := nodes[rapid.IntRange(1, len(nodes)-1).Draw(t, "node")]
 
-		// a quarter of the mutations goes to a path expression and keeps it a string
-		if rapid.IntRange(0, 3).Draw(t, "pathMutation") == 0 {
-			var paths []nodeRef
+		// a third of the mutations goes to a member with a small language of its own (path expressions, method lists,
+		// conditions, matcher types, durations) and stays inside the member's type
+		if rapid.IntRange(0, 2).Draw(t, "keyedMutation") == 0 {
+			var keyed []nodeRef
 
 			for _, c := range nodes {
-				if c.key == "path" {
-					paths = append(paths, c)
+				if _, ok := keyedConfusions[c.key]; ok {
+					keyed = append(keyed, c)
 				}
 			}
 
-			if len(paths) != 0 {
-				pn := paths[rapid.IntRange(0, len(paths)-1).Draw(t, "pathNode")]
-				pn.set(rapid.SampledFrom(pathConfusions).Draw(t, "pathConfusion"))
-				desc = append(desc, "path-expression")
+			if len(keyed) != 0 {
+				kn := keyed[rapid.IntRange(0, len(keyed)-1).Draw(t, "keyedNode")]
+				pool := keyedConfusions[kn.key]
+				kn.set(fresh(pool[rapid.IntRange(0, len(pool)-1).Draw(t, "keyedConfusion")]))
+				desc = append(desc, "keyed:"+kn.key)
 
 				continue
 			}
